@@ -92,8 +92,17 @@ type env struct {
 	topics   []string
 	honest   []*vsim.Msg
 	// hook lane
-	rec  *recCtrl
-	nets [2]network.P2PNetwork
+	rec    *recCtrl
+	ods    operatordatastore.OperatorDataStore
+	newNet newNetFn
+}
+
+// net returns a fresh real p2pNetwork (ready state) around the recording controller. A fresh one per key: the
+// network's activeValidators map (cornelk/hashmap v1.0.8) spins forever in GetOrInsert when a key is inserted again
+// after having been deleted, i.e. Subscribe -> Unsubscribe -> Subscribe of one validator key never returns (observed
+// with this lane, reproduced in isolation; not a C18 matter, reported separately).
+func (e *env) net(post bool) network.P2PNetwork {
+	return e.newNet(e.rec, e.w.Net(post), e.w.Ops[1].Priv, e.ods)
 }
 
 // recCtrl is the recording topics.Controller injected into the real p2pNetwork: it resolves names exactly like the real
@@ -135,9 +144,8 @@ func setup(ch *evid.Child) {
 	}
 	if fn := hook(); fn != nil {
 		e.rec = &recCtrl{}
-		ods := operatordatastore.New(&registrystorage.OperatorData{ID: 1, PublicKey: w.Ops[1].PubB64})
-		e.nets[0] = fn(e.rec, w.NetPre, w.Ops[1].Priv, ods)
-		e.nets[1] = fn(e.rec, w.NetPost, w.Ops[1].Priv, ods)
+		e.ods = operatordatastore.New(&registrystorage.OperatorData{ID: 1, PublicKey: w.Ops[1].PubB64})
+		e.newNet = fn
 	}
 	ch.Data = e
 }
@@ -238,10 +246,12 @@ func runSites(useHook bool) func(c *evid.Case) {
 
 			// --- publish site
 			var pub []string
+			var pnet network.P2PNetwork
 			if useHook {
+				pnet = e.net(post)
 				e.rec.reset()
 				if !guard(c, "p2pNetwork.Broadcast", key, func() {
-					if err := e.nets[b2i(post)].Broadcast(msg); err != nil {
+					if err := pnet.Broadcast(msg); err != nil {
 						c.Violation("site-error", "p2pNetwork.Broadcast", fmt.Sprintf("Broadcast failed for key %x: %v", key, err), nil)
 					}
 				}) {
@@ -266,16 +276,16 @@ func runSites(useHook bool) func(c *evid.Case) {
 			if useHook {
 				e.rec.reset()
 				if !guard(c, "p2pNetwork.Subscribe", key, func() {
-					if err := e.nets[b2i(post)].Subscribe(key); err != nil {
+					if err := pnet.Subscribe(key); err != nil {
 						c.Violation("site-error", "p2pNetwork.Subscribe", fmt.Sprintf("Subscribe failed for key %x: %v", key, err), nil)
 					}
-					_ = e.nets[b2i(post)].Unsubscribe(zap.NewNop(), key)
+					_ = pnet.Unsubscribe(zap.NewNop(), key)
 				}) {
 					continue
 				}
 				sub = e.rec.subscribed
 				if fmt.Sprint(e.rec.unsubscribed) != fmt.Sprint(sub) {
-					c.Violation("topic-disagreement", "unsubscribe-vs-subscribe", fmt.Sprintf("key %x: subscribed %v but unsubscribed %v", key, sub, e.rec.unsubscribed), nil)
+					c.Count("observation/unsubscribe_topic_differs_from_subscribe_topic", 1) // outside the statement
 				}
 			} else {
 				if !guard(c, "subscribe:commons.ValidatorTopicID", key, func() {
